@@ -73,6 +73,7 @@ def enumerate_set(opc):
     mem = [0] * 65536
     dw = Disassembler(mem, _mkcfg(opc, True))
     dn = Disassembler(mem, _mkcfg(opc, False))
+    dl = Disassembler(mem, _mkcfg(opc, True, hexa=False, lower=True))      # lower-case, decimal text of the same bytes
     fails = []
     n = 0
     static = {}
@@ -151,6 +152,13 @@ def enumerate_set(opc):
                         got = frozenset(tm) if isinstance(tm, tuple) else frozenset((tm,))
                         if got != tset:
                             fails.append(('timing', key, hexseq, (ins.operation, sorted(got), sorted(tset or ()))))
+                    # the timing looked up for a statement is a function of its bytes: the same in lower-case, decimal text
+                    try:
+                        il = dl.disassemble(addr, addr + 1, 'n')[0]
+                        if list(il.bytes) == list(iw.bytes) and z80.get_timing(il) != z80.get_timing(iw):
+                            fails.append(('timing.case', key, hexseq, (il.operation, z80.get_timing(il), iw.operation, z80.get_timing(iw))))
+                    except Exception as ex:
+                        fails.append(('timing.no_raise', key, hexseq, ('lower case', repr(ex))))
                     for k in range(len(seq)):
                         mem[(addr + k) & 0xFFFF] = 0
     return opc, n, fails
